@@ -8,7 +8,7 @@ ROOT = os.path.dirname(os.path.dirname(os.path.abspath(__file__)))
 # id -> (technique, level text, level note, design ref)
 CHECKS = {
  "C01": ("runtime outcome monitor over generated/hostile workloads + fuel-counter hooks + process watchdog",
-         "Exploration: every public rendering route is executed on grammar-generated, byte-mutated, hostile-attribute, byte-soup, CSS-bearing and deeply nested inputs across the width set and configuration product of the property; the oracle admits only Ok/TooNarrow, panics are caught with their location, hooked loops turn non-termination into a deterministic fuel verdict and worker death/timeouts are re-examined in isolation. Held means: no violation on the executions counted in the evidence.",
+         "Exploration: every public rendering route (one-shot, staged, cross-configuration) is executed on grammar-generated, emoji/variation-selector/joiner-sequence, byte-mutated, hostile-attribute, byte-soup, CSS-bearing and deeply nested inputs across the width set and configuration product of the property; the oracle admits only Ok/TooNarrow, panics are caught with their location, hooked loops turn non-termination into a deterministic fuel verdict and worker death/timeouts are re-examined in isolation. Held means: no violation on the executions counted in the evidence.",
          "Trusts html5ever to terminate; hangs outside hooked loops are decided by a wall-clock watchdog with an isolated 5x retry; 8 MiB stack stands for the main-thread stack.",
          "DESIGN.md §3 C01"),
  "C02": ("runtime width-bound monitor on every output line (unicode-width oracle) over boundary-biased workloads",
@@ -16,7 +16,7 @@ CHECKS = {
          "Display width = unicode-width 0.2; a line is over-wide only if both width measures exceed the limit.",
          "DESIGN.md §3 C02"),
  "C03": ("runtime text-preservation monitor: visible character stream of an independent oracle DOM vs T-projection of the output",
-         "Exploration: for every Ok rendering of grammar and byte-mutated documents the T-projection of the output (letters of a token alphabet disjoint from everything the renderer adds) is compared with the visible character stream of the harness's own html5ever TreeSink - as a sequence for table-free documents and raw mode, as a multiset plus per-cell subsequence for bordered tables, and for the trivial decorator on every character. Hand-written regression inputs run as the first cases. Four genuine defects of the pinned tree are listed as known findings by structural signature.",
+         "Exploration: for every Ok rendering of grammar and byte-mutated documents the T-projection of the output (letters of a token alphabet disjoint from everything the renderer adds) is compared with the visible character stream of the harness's own html5ever TreeSink - as a sequence for table-free documents and raw mode, as a multiset plus per-cell subsequence for bordered tables, and for the trivial decorator on every character. Hand-written regression inputs run as the first cases. Genuine defects of the pinned tree are listed as known findings by structural signature.",
          "Oracle DOM shares html5ever's tokenizer/tree builder with the crate; img alt counts only with a src; template contents/comments/control characters are not visible.",
          "DESIGN.md §3 C03"),
  "C04": ("reference-model monitor: 40-line greedy wrapper vs rendered paragraph lines, bounded-exhaustive word-width tuples + random paragraphs",
@@ -24,7 +24,7 @@ CHECKS = {
          "Standalone zero-width words are not generated; display width from unicode-width.",
          "DESIGN.md §3 C04"),
  "C10": ("history monitor: all public routes compared on one reused/cloned render tree over width sequences",
-         "Exploration over call histories: one document, one configuration, width sequences with repeats/out-of-order/0/too-narrow values; string_from_read (twice), join(lines_from_read), coloured(identity), and render_to_string/render_to_lines on clones of one tree built once must agree byte for byte (or fail with the same error) at every position of the history.",
+         "Exploration over call histories: one document, one configuration, width sequences with repeats/out-of-order/0/too-narrow values; string_from_read (twice), join(lines_from_read), coloured(identity), render_to_string/render_to_lines on clones of one tree built once, a tree built under another decorator, and the convenience functions from_read / from_read_with_decorator / from_read_rich / parse must agree byte for byte (or fail with the same error) at every position of the history.",
          "Cross-process determinism is compared on the first 400 cases of a run (two worker processes).",
          "DESIGN.md §3 C10"),
  "C11": ("pair monitor: (width 0, without overflow, with overflow) triples; AST-derived prefix bound",
@@ -48,7 +48,7 @@ CHECKS = {
          "Only the three plain empty-link forms count as empty; a reference cut by a line break is counted as unobserved.",
          "DESIGN.md §3 C08"),
  "C12": ("reference-model monitor: tab/line expansion model vs rendered <pre>, bounded-exhaustive atom lines + random blocks",
-         "Exploration with an exhaustive small scope: all single-line <pre> over atoms {a, ab, space, tab, wide char} (quick <=4, thorough <=6 atoms) x widths 1..=12, and random blocks with line lengths around the available width, inline elements, <br>, nesting in li/blockquote: verbatim reproduction when everything fits; width bound, character preservation, line-break preservation and Preformat(false/true) tags otherwise. One genuine tagging defect is a known finding.",
+         "Exploration with an exhaustive small scope: all single-line <pre> over atoms {a, ab, space, tab, wide char} (quick <=5, thorough <=6 atoms) x widths 1..=12, and random blocks with line lengths around the available width, inline elements around words and around white space alone, <br>, nesting in li/blockquote: verbatim reproduction when everything fits; width bound, character preservation, line-break preservation and Preformat(false/true) tags otherwise. One genuine tagging defect is a known finding.",
          "Fits-class lines are compared modulo line-trailing spaces; tags of a first piece after leading whitespace are not judged.",
          "DESIGN.md §3 C12"),
  "C16": ("runtime monitor with a parameterised TextDecorator: C07's compositional oracle + width bound + exact affix expectation + trivial-decorator text equality",
@@ -56,7 +56,7 @@ CHECKS = {
          "Decorator family is stateless.",
          "DESIGN.md §3 C16"),
  "C05": ("runtime grid monitor: output parsed into a character-cell grid; local junction/bar rules + row-band structure + stacked rule skeleton",
-         "Exploration with an exhaustive small scope (all tables up to 2x2 quick / 2x3 thorough over 3 content classes and all colspan tilings, widths 1..=30) plus random regular tables up to 5x6 with nested tables: equal line widths, outer rules, bars fixed within a row band, and at every rule glyph of the output glyph == f(bar above, bar below); stacked tables: full-width '─'/'/' rule skeleton. One genuine defect (ragged lines when a spanning cell covers a zero-width column) is a known finding.",
+         "Exploration with an exhaustive small scope (all tables up to 2x2 quick / 2x3 thorough over 3 content classes and all colspan tilings, widths 1..=30) plus random regular tables up to 5x6 with nested tables, row groups, <br>-only cells, paragraphs in cells, under option/decorator variants and inside quotes and list items: equal line widths, outer rules, bars fixed within a row band, and at every rule glyph of the output glyph == f(bar above, bar below); stacked tables: full-width '─'/'/' rule skeleton. One genuine defect (ragged lines when a spanning cell covers a zero-width column) is a known finding.",
          "Band/bar structure is checked for tables without nested tables whose columns all got a width (TableLayout hook); other tables get the local rules and equal widths.",
          "DESIGN.md §3 C05"),
  "C06": ("runtime grid monitor: per-cell rectangles of the parsed grid must contain exactly the cell's text; allocation facts from the TableLayout hook",
